@@ -13,6 +13,7 @@ import (
 	"path/filepath"
 	"sort"
 	"strings"
+	"syscall"
 	"time"
 
 	jet "github.com/CloudyKit/jet/v6"
@@ -372,7 +373,7 @@ func (c *c19) edit(l *lut) {
 		}
 	case "os", "httpdir":
 		fp := filepath.Join(l.root, filepath.FromSlash(p))
-		choice := t.Choose(8)
+		choice := t.Choose(9)
 		// a path that is, or lies below, a symbolic link made earlier is left alone (writing through a
 		// link would create files the reference tree does not know)
 		for q := p; q != "/" && q != "."; q = Dir(q) {
@@ -381,6 +382,25 @@ func (c *c19) edit(l *lut) {
 			}
 		}
 		switch choice {
+		case 8:
+			// a named pipe without a writer: opening it blocks - a loader has to tell that it is no regular
+			// file without opening it
+			if l.model.hasFile(p) || l.model.dirs[p] || l.links[p] {
+				return
+			}
+			parent := Dir(p)
+			if parent != "/" && !l.model.mkdirAll(parent) && !l.model.dirs[parent] {
+				return
+			}
+			os.MkdirAll(filepath.Dir(fp), 0o755)
+			if err := syscall.Mkfifo(fp, 0o644); err == nil {
+				if l.links == nil {
+					l.links = map[string]bool{}
+				}
+				l.links[p] = true
+				c.hist = append(c.hist, "mkfifo("+p+")")
+				c.env.Stat("probe:named_pipe_below_the_root", 1)
+			}
 		case 7:
 			// a symbolic link to a character device: it can be opened, and it is no regular file
 			if l.model.hasFile(p) || l.model.dirs[p] || l.links[p] {
